@@ -501,9 +501,9 @@ func (c *CollectionFeature) MergeFrom(other Feature) {
 
 func (c *CollectionFeature) MergeFromCollectionFeature(other *CollectionFeature) {
 	c.CollectionID = other.CollectionID
-	c.Tags = other.Tags
-	c.Keys = other.Keys
-	c.Values = other.Values
+	c.Tags = other.Tags.Clone()
+	c.Keys = slices.Clone(other.Keys)
+	c.Values = slices.Clone(other.Values)
 	c.sorted = other.sorted
 }
 
